@@ -30,6 +30,14 @@ CHECKS = {
    technique='deterministic simulation with fault injection: enumerated and seeded stored-byte faults (truncation, substitution, structure-aware field corruption, random bytes) on a simulated disk with an I/O clock and read-request accounting',
    text="Every truncation length up to 4 KiB and around every structural boundary, every listed single-byte substitution of the 64-byte header region (enumerated per seed image; quick sweeps a seeded third of the images, thorough all), plus seeded multi-field structure-aware corruptions and random byte strings. Oracles: constructor outcome is success or ELFError; the fixed enumeration battery terminates within deterministic budgets on the simulated I/O clock (stream operations, bytes returned, largest read request). Enumeration of the named fault classes on the seed images; sampling for field/bytes.",
    note="Trusted: SimStream's BytesIO-compatible semantics and accounting; budget constants K_ops=K_bytes=1024*W, K_read=16*W with W=max(file size, 4096) - generous on purpose, they separate loops bounded by the file size or a 16-bit count from loops driven by an unchecked 32/64-bit field. Loops that do no I/O are only caught by the wall-clock watchdog."),
+ 'C10': dict(engine='histsim', category='exploration', design_ref='DESIGN.md section 3 / C10',
+   technique='deterministic simulation: seeded cooperative scheduler interleaving client tasks step by step (one API call / one next() per step) on one shared opened file, with cursor displacement and iterator abandonment injected between steps; oracle = solo execution on a fresh object + sequential catalogue',
+   text="Seeded search over call histories: 1-4 client tasks x 1-8 ops drawn from ~80 public read-only op kinds (ELF and DWARF level), every library iterator interruptible at every element, cursor of every shared stream (file and each debug section) displaced between steps, iterators abandoned half-way, repeated queries, a second DWARFInfo mid-history. Each step must equal the same step of the op run alone on a fresh object; solo answers must agree with the sequential catalogue (linear DIE scan + derived nesting, linear table scans). Sampling of histories: evidence, not proof.",
+   note="Trusted: SimStream semantics, the canonicaliser, the catalogue's nesting model. The solo reference is the same library in isolation, so an error identical in every history is invisible here by design (that is what the pure-decode properties are about). Arguments stay inside each query's documented domain."),
+ 'C13': dict(engine='histsim', category='exploration', design_ref='DESIGN.md section 3 / C13',
+   technique='deterministic simulation: the E1 scheduler with the op mix restricted to unit / address-range / name-table lookups over the lazily filled, bisect-maintained unit cache; oracle = linear scans of the tables and unit extents + solo execution',
+   text="Scope: the lookup clauses (address -> unit offset or nothing; offset -> containing unit / exact unit, for all lookup orders; names -> existing unit and entry). Lookups are interleaved and displaced as in C10 and compared with linear scans over the entries the tables expose and over the catalogue's unit extents. That ranges/names/headers equal the encoded bytes is pure decode and not decided by this technique.",
+   note="Overlapping address ranges are outside the quantifier: soundness only there. Trusted: as C10."),
 }
 
 def main():
